@@ -127,6 +127,10 @@ def shadow(modname: str, rebind: dict | None = None, cuts: dict | None = None, c
 
         tree = loopcut.transform(tree, cuts, dropped)
         ast.fix_missing_locations(tree)
+    if rebind and rebind.get("__genexpr__"):
+        tree = _GenexprRewrite().visit(tree)
+        ast.fix_missing_locations(tree)
+        dropped.append("every `min/max/sum/any/all(ELT for X in IT if COND)` is routed through __pyvc__.reduce_gen (identical on ordinary iterables)")
     if rebind and rebind.get("__fmt__"):
         tree = _FmtRewrite().visit(tree)
         ast.fix_missing_locations(tree)
@@ -160,6 +164,30 @@ def shadow(modname: str, rebind: dict | None = None, cuts: dict | None = None, c
     if cache_key is not None:
         _SHADOW_CACHE[key] = mod
     return mod
+
+
+class _GenexprRewrite(ast.NodeTransformer):
+    """`F(ELT for X in IT [if COND])` for F in min/max/sum/any/all with a single generator and
+    a plain-name target  ->  `__pyvc__.reduce_gen("F", IT, lambda X: ELT, lambda X: COND)`.
+    On an ordinary iterable reduce_gen evaluates exactly the original expression; on a
+    symbolic collection model it applies the reduction's defining property."""
+
+    FUNCS = {"min", "max", "sum", "any", "all"}
+
+    def visit_Call(self, node):
+        self.generic_visit(node)
+        if (isinstance(node.func, ast.Name) and node.func.id in self.FUNCS and len(node.args) == 1 and not node.keywords
+                and isinstance(node.args[0], ast.GeneratorExp) and len(node.args[0].generators) == 1):
+            g = node.args[0].generators[0]
+            if isinstance(g.target, ast.Name) and not g.is_async and len(g.ifs) <= 1:
+                def lam(body):
+                    return ast.Lambda(args=ast.arguments(posonlyargs=[], args=[ast.arg(arg=g.target.id)], kwonlyargs=[],
+                                                         kw_defaults=[], defaults=[]), body=body)
+                cond = g.ifs[0] if g.ifs else ast.Constant(value=True)
+                return ast.copy_location(ast.Call(
+                    func=ast.Attribute(value=ast.Name(id="__pyvc__", ctx=ast.Load()), attr="reduce_gen", ctx=ast.Load()),
+                    args=[ast.Constant(value=node.func.id), g.iter, lam(node.args[0].elt), lam(cond)], keywords=[]), node)
+        return node
 
 
 class _FmtRewrite(ast.NodeTransformer):
